@@ -330,6 +330,24 @@ let run clause_prefix path =
               | _ -> event_kind e in
             report "kept_until_acked" q (what ^ " last_received=" ^ (match x with Some p -> s_of_packet p | None -> "-") ^ " (trace scan)")) in
      go None evs);
+    (* the conservation ledger (Client/ClientLedger.v, C09_scan_ledger_sound): every AllPackets(Outgoing) listing
+       equals the outgoing store read off the history of successful saves, deletes, resets and DUP re-sends *)
+    (let rec go x = function
+       | [] -> ()
+       | (q, e) :: rest ->
+         (match ClientLedger.lscan_step false x e with
+          | Some x' -> go x' rest
+          | None ->
+            (match TraceScan.kept_step x.ClientLedger.lg_last e with
+             | None -> ()                       (* the kept scanner above has reported it *)
+             | Some _ ->
+               let lst l = "[" ^ S.concat ";" (L.map s_of_packet l) ^ "]" in
+               let what = match e with
+                 | C.EAll (_, Some l) -> "listing_differs_from_the_ledger_of_the_history listed=" ^ lst l ^
+                                         " ledger=" ^ lst (Store.store_all x.ClientLedger.lg_store)
+                 | _ -> event_kind e in
+               report "kept_until_acked" q (what ^ " (ledger scan)"))) in
+     go ClientLedger.lscan0 evs);
     if not (TraceScan.scan_noack false all_events) then begin
       let rec first acc = function
         | [] -> "?"
